@@ -195,6 +195,10 @@ def make_replay(which):
         CopyLink and RangeLinCon2Slack (replay/c04_replay.cc)"""
         import subprocess
         from vp import native
+        if which == 'repeat':
+            drv = native.build_driver('c04_repeat_replay.cc', 'c04_repeat_replay', native.MP_SOURCES, ['-O0'])[0]
+            p = subprocess.run([drv], capture_output=True, text=True, timeout=300)
+            return p.returncode != 0, (p.stdout + p.stderr)[-2500:], drv
         if _drv[0] is None:
             _drv[0] = native.build_driver('c04_replay.cc', 'c04_replay', native.MP_SOURCES, ['-O0'])[0]
         p = subprocess.run([_drv[0], which], capture_output=True, text=True, timeout=300)
@@ -205,11 +209,42 @@ def make_replay(which):
 def harnesses(tier, seed):
     hs = _harnesses(tier, seed)
     for h in hs:
-        h.replay = make_replay('setnum' if 'SetNum' in h.name else 'graph')
+        h.replay = make_replay('setnum' if 'SetNum' in h.name else 'repeat' if 'CleanUp' in h.name else 'graph')
     return hs
+
+
+VEC = '''
+#include "mp_shim.h"
+int vp_one;
+/* std::vector<T> seen through an arbitrary witness index g_w: its size and the element at g_w (stale content from an earlier transfer).
+   clear() destroys the elements, resize(n) value-initialises exactly the elements added beyond the current size */
+typedef struct { size_t size; double w_val; } Vec;
+size_t g_w, g_size;
+static size_t Size(void) { return g_size; }
+static void vp_clear(Vec *v) { v->size = 0; }
+static void vp_resize(Vec *v, size_t n) { if (g_w >= v->size && g_w < n) v->w_val = 0; v->size = n; }
+Vec vi_, vd_, vStr_;
+'''
+VECSUB = [(r'\b(vi_|vd_|vStr_)\.clear\(\)', r'vp_clear(&\1)', -1), (r'\b(vi_|vd_|vStr_)\.resize\(', r'vp_resize(&\1, ', -1)]
+
+
+def h_cleanup(names):
+    """ValueNode::CleanUpAndRealloc[_Names]: before each transfer every value array has the node's size and holds only zeros (no value of an
+    earlier transfer survives): 'every transfer is independent of the transfers performed before it'"""
+    fn_name = 'CleanUpAndRealloc_Names' if names else 'CleanUpAndRealloc'
+    vecs = ['vStr_'] if names else ['vi_', 'vd_']
+    ens = ' && '.join('%s.size == g_size && (g_w < g_size ==> %s.w_val == 0)' % (v, v) for v in vecs)
+    parts = [VEC, Fn(NODE, r'void %s\(\)' % fn_name, 'void %s(void)' % fn_name, contract='__CPROVER_ensures(%s) __CPROVER_assigns(%s)' % (ens, ', '.join(vecs)),
+                     subst=VECSUB, label='mp::pre::ValueNode::' + fn_name, nmatches=1), '''
+void harness(void) { vp_one = 1; g_w = nondet_size_t(); g_size = nondet_size_t();
+  vi_.size = nondet_size_t(); vi_.w_val = nondet_double(); vd_.size = nondet_size_t(); vd_.w_val = nondet_double(); vStr_.size = nondet_size_t(); vStr_.w_val = nondet_double();
+  %s(); VP_REACH("normal return"); }
+''' % fn_name]
+    return Harness('C04.ValueNode.' + fn_name, 'C04', parts, enforce=fn_name, stubs=['std::vector clear() / resize() (size and one arbitrary witness element)'])
 
 
 def _harnesses(tier, seed):
     hs = [h_setnum('int'), h_setnum('double'), h_setnum_order('int'), h_setnum_order('double'), h_reverse()]
     hs += [h_entry(n) for n in ENTRIES]
+    hs += [h_cleanup(False), h_cleanup(True)]
     return hs
